@@ -170,6 +170,20 @@ def main():
             notes.append(f"{len(tolerated)} interleaved scenario(s) differ from the model only in the order of releases inside "
                          f"uninterrupted release runs (agree under release-atomic scheduling), e.g. {tolerated[0]}")
 
+    # ---- 4a'. a property may define a second, coarser comparison for scenarios on which the first one fails and the
+    #           monitor has accepted the implementation (C12: equal up to the release run that contains the faulted release)
+    if proj_fail and not mon_fail and not crashed and hasattr(P, "second_expr") and not replay:
+        items4 = [(x, P.second_expr(byid[x], res[x])) for x in proj_fail]
+        items4 = [(k, e) for k, e in items4 if e]
+        vals4, _ = hl.run_coq_cases(pid + "s2", P.CASE_MODULES, items4)
+        tol2 = [k for k, _ in items4 if (vals4.get(k) or "").strip() == "true"]
+        if tol2:
+            tolerated += tol2
+            proj_fail = [x for x in proj_fail if x not in tol2]
+            notes.append(f"{len(tol2)} scenario(s) differ from the model only from the run of releases that contains the "
+                         f"faulted release onwards (the order of releases decides which one panics); judged by the monitor, "
+                         f"e.g. {tol2[0]}")
+
     # ---- 4b. when only the correspondence (or the discipline a theorem rests on) broke, look harder for an input on
     #          which the property itself fails: the module proposes variants of the diverging scenarios
     deep_tried = 0
